@@ -127,6 +127,10 @@ func (f *failingReader) Read(p []byte) (int, error) {
 
 func (f *failingReader) Close() error { return nil }
 
+// unknownLengthMarker is a pseudo header understood by serveBody only: the request is delivered as one whose
+// body length is not announced (Content-Length absent, Transfer-Encoding: chunked), as streaming clients send it.
+const unknownLengthMarker = "X-Verif-Unknown-Length"
+
 func (s *server) serve(method, target string, hdr http.Header, body []byte) (rec *httptest.ResponseRecorder, panicked string) {
 	return s.serveBody(method, target, hdr, body, false)
 }
@@ -152,6 +156,15 @@ func (s *server) serveBody(method, target string, hdr http.Header, body []byte, 
 		req.ContentLength = int64(len(body)) + 64 // the peer announced more than it sent
 	}
 	for k, vs := range hdr {
+		if k == unknownLengthMarker {
+			// a body sent with chunked transfer encoding: the server is not told its length
+			if body != nil && !cut {
+				req.ContentLength = -1
+				req.TransferEncoding = []string{"chunked"}
+				req.Body = io.NopCloser(struct{ io.Reader }{bytes.NewReader(body)})
+			}
+			continue
+		}
 		req.Header[k] = append([]string{}, vs...)
 	}
 	rec = httptest.NewRecorder()
